@@ -3,6 +3,7 @@
 // public API only.  Case line:  <variant> <op> <op> ...   (same format as ocaml/vec_driver.ml)
 //   variant C: copyable element, noexcept moves     M: move-only element, noexcept moves
 //           T: copyable element whose k-th assignment throws on demand (op suffix !k)     U: move-only, throwing
+//           P: plain std::int64_t (trivially copyable; no instance counting)
 // Every element type counts its instances (live set keyed by address): constructing over a live object, destroying
 // or using a dead one sets a trap flag; elements still alive after the whole pool was destroyed are a leak.
 // A moved-from element shows as 'm', a value-initialised one (never written, or T() asked for by emplace_back()) as '0'.
@@ -15,6 +16,10 @@
 #include <nitro/lang/reverse.hpp>
 
 #include <array>
+#include <cstdint>
+#include <iterator>
+#include <list>
+#include <memory>
 #include <optional>
 #include <set>
 #include <type_traits>
@@ -76,15 +81,43 @@ template <> struct traits<ElemC> { static constexpr bool copy = true, thr = fals
 template <> struct traits<ElemT> { static constexpr bool copy = true, thr = true; };
 template <> struct traits<ElemM> { static constexpr bool copy = false, thr = false; };
 template <> struct traits<ElemU> { static constexpr bool copy = false, thr = true; };
+// variant P: a plain, trivially copyable element (no instance counting possible; a move leaves the value in place, which
+// no fault-free history can observe: moved-from slots are never inside the live range)
+using Plain = std::int64_t;
+template <> struct traits<Plain> { static constexpr bool copy = true, thr = false; };
+static_assert(std::is_trivially_copyable<Plain>::value, "variant P must be trivially copyable");
 
+template <typename E> long val(const E& e) { alive(&e); return e.v; }
+inline long val(const Plain& e) { return static_cast<long>(e); }
 template <typename E>
 char ch(const E& e)
 {
-    alive(&e);
-    if (e.v >= 0 && e.v <= 9) return static_cast<char>('0' + e.v); // 0 = value-initialised (T()), 1..9 caller values
-    if (e.v == -1) return 'm';
+    long v = val(e);
+    if (v >= 0 && v <= 9) return static_cast<char>('0' + v); // 0 = value-initialised (T()), 1..9 caller values
+    if (v == -1) return 'm';
     return '?';
 }
+
+// a single-pass source: copies of the iterator share one read position (like std::istream_iterator), so a second
+// traversal of [first, last) sees nothing
+template <typename E>
+struct SinglePass
+{
+    using iterator_category = std::input_iterator_tag;
+    using value_type = E;
+    using difference_type = std::ptrdiff_t;
+    using pointer = const E*;
+    using reference = const E&;
+    const std::vector<E>* src = nullptr;
+    std::shared_ptr<std::size_t> pos;
+    bool is_end = true;
+    bool done() const { return is_end || *pos >= src->size(); }
+    reference operator*() const { return (*src)[*pos]; }
+    SinglePass& operator++() { ++*pos; return *this; }
+    void operator++(int) { ++*pos; }
+    bool operator==(const SinglePass& o) const { return done() == o.done(); }
+    bool operator!=(const SinglePass& o) const { return !(*this == o); }
+};
 inline std::string dash(const std::string& s) { return s.empty() ? "-" : s; }
 
 constexpr std::size_t NPOOL = 3;
@@ -110,7 +143,7 @@ bool parse_op(const std::string& w0, Op& op)
     }
     auto f = vh::split_on(w, ',');
     op.name = f[0];
-    static const char* with_list[] = { "nf", "nl", "la", "ir", "il", "pr", "irb" };
+    static const char* with_list[] = { "nf", "nfl", "nfa", "nfi", "nl", "la", "ir", "irs", "il", "pr", "prs", "irb" };
     bool has_list = false;
     for (auto n : with_list) if (op.name == n) has_list = true;
     std::size_t nnum = f.size() - 1 - (has_list ? 1 : 0);
@@ -129,7 +162,8 @@ bool parse_op(const std::string& w0, Op& op)
             for (char c : l) { if (c < '1' || c > '9') return false; op.xs.push_back(c - '0'); }
     }
     auto arity = [&](const char* n, std::size_t k, bool l) { return op.name == n && op.a.size() == k && has_list == l; };
-    return arity("n", 2, false) || arity("nf", 2, true) || arity("nl", 1, true) || arity("cp", 2, false) || arity("mv", 2, false) ||
+    return arity("n", 2, false) || arity("nf", 2, true) || arity("nfl", 2, true) || arity("nfa", 2, true) || arity("nfi", 2, true) ||
+           arity("nfv", 3, false) || arity("irs", 2, true) || arity("prs", 1, true) || arity("nl", 1, true) || arity("cp", 2, false) || arity("mv", 2, false) ||
            arity("as", 2, false) || arity("ma", 2, false) || arity("la", 1, true) || arity("at", 2, false) || arity("get", 2, false) ||
            arity("em", 3, false) || arity("eb", 2, false) || arity("in", 2, false) || arity("im", 2, false) || arity("pb", 2, false) ||
            arity("ir", 2, true) || arity("il", 2, true) || arity("pr", 1, true) || arity("po", 1, false) || arity("er", 2, false) ||
@@ -295,13 +329,14 @@ struct Interp
     static std::vector<std::size_t> uses(const Op& op)
     {
         const std::string& n = op.name;
-        if (n == "n" || n == "nf" || n == "nl" || n == "la" || n == "de") return {};
+        if (n == "n" || n == "nf" || n == "nfl" || n == "nfa" || n == "nfi" || n == "nl" || n == "la" || n == "de") return {};
         if (n == "cp" || n == "mv" || n == "as" || n == "ma") return { (std::size_t)op.a[1] };
+        if (n == "nfv") return { (std::size_t)op.a[2] };
         return { (std::size_t)op.a[0] };
     }
     static bool needs_copy(const Op& op)
     {
-        static const char* l[] = { "nf", "nl", "cp", "as", "la", "in", "pb", "ir", "il", "pr", "ea", "ba", "ia", "pa", "sr", "ps", "irb" };
+        static const char* l[] = { "nfl", "nfa", "nfi", "nfv", "irs", "prs", "nf", "nl", "cp", "as", "la", "in", "pb", "ir", "il", "pr", "ea", "ba", "ia", "pa", "sr", "ps", "irb" };
         for (auto n : l) if (op.name == n) return true;
         return false;
     }
@@ -310,7 +345,8 @@ struct Interp
         if ((needs_copy(op) && !COPY) || (op.plan >= 0 && !THR)) return true;
         for (auto i : writes(op)) if (i >= NPOOL) return true;
         for (auto i : uses(op)) if (i >= NPOOL) return true;
-        if ((op.name == "nl" || op.name == "la" || op.name == "il") && op.xs.size() > 5) return true;
+        if ((op.name == "nl" || op.name == "la" || op.name == "il" || op.name == "nfi") && op.xs.size() > 5) return true;
+        if (op.name == "nfa" && op.xs.size() > 6) return true;
         if (op.name == "get" && op.a[1] > 5) return true;
         if ((op.name == "erb" || op.name == "emb" || op.name == "irb") && (op.a[1] < 1 || op.a[1] > 4)) return true;
         return false;
@@ -318,12 +354,35 @@ struct Interp
     // begin() + pos is only a valid pointer for pos <= capacity (checked after the moved-from rule)
     bool bad_position(const Op& op)
     {
-        if (op.name == "em" || op.name == "ir" || op.name == "il" || op.name == "er" || op.name == "ea" || op.name == "sr" || op.name == "emd")
+        if (op.name == "em" || op.name == "ir" || op.name == "il" || op.name == "er" || op.name == "ea" || op.name == "sr" || op.name == "emd" || op.name == "irs")
         {
             std::size_t i = op.a[0];
             if (pool[i] && (std::size_t)op.a[1] > pool[i]->capacity()) return true;
         }
         return false;
+    }
+
+    template <std::size_t N, typename Arm>
+    void from_array_n(std::size_t i, std::size_t c, const std::vector<int>& x, Arm& arm)
+    {
+        std::array<E, N> src{};
+        for (std::size_t k = 0; k < N; k++) src[k] = E(x[k]);
+        arm();
+        pool[i].emplace(c, src);
+    }
+    template <typename Arm>
+    void from_array(std::size_t i, std::size_t c, const std::vector<int>& x, Arm& arm)
+    {
+        switch (x.size())
+        {
+        case 0: from_array_n<0>(i, c, x, arm); break;
+        case 1: from_array_n<1>(i, c, x, arm); break;
+        case 2: from_array_n<2>(i, c, x, arm); break;
+        case 3: from_array_n<3>(i, c, x, arm); break;
+        case 4: from_array_n<4>(i, c, x, arm); break;
+        case 5: from_array_n<5>(i, c, x, arm); break;
+        default: from_array_n<6>(i, c, x, arm); break;
+        }
     }
 
     // executes the operation; returns the outcome token
@@ -344,6 +403,26 @@ struct Interp
                 std::vector<E> src;
                 for (int x : op.xs) src.emplace_back(x);
                 pool[i].reset(); arm(); pool[i].emplace(static_cast<std::size_t>(op.a[1]), src); return ok;
+            }
+            // the same public constructor fixed_vector(capacity, iterable) with other kinds of iterable
+            if (n == "nfl")
+            {
+                std::list<E> src;
+                for (int x : op.xs) src.emplace_back(x);
+                pool[i].reset(); arm(); pool[i].emplace(static_cast<std::size_t>(op.a[1]), src); return ok;
+            }
+            if (n == "nfa") { pool[i].reset(); from_array(i, static_cast<std::size_t>(op.a[1]), op.xs, arm); return ok; }
+            if (n == "nfi")
+            {
+                pool[i].reset();
+                with_il<E>(op.xs, [&](std::initializer_list<E>& il) { arm(); pool[i].emplace(static_cast<std::size_t>(op.a[1]), il); });
+                return ok;
+            }
+            if (n == "nfv")
+            {
+                std::size_t j = op.a[2];
+                if (i == j || !pool[j]) return "S";
+                pool[i].reset(); arm(); pool[i].emplace(static_cast<std::size_t>(op.a[1]), static_cast<const FV&>(*pool[j])); return ok;
             }
             if (n == "nl")
             {
@@ -390,6 +469,17 @@ struct Interp
                 arm();
                 if (n == "ir") v.insert(v.begin() + op.a[1], src.begin(), src.end());
                 else v.push_back(src.begin(), src.end());
+                return ok;
+            }
+            if (n == "irs" || n == "prs")
+            {
+                std::vector<E> src;
+                for (int x : op.xs) src.emplace_back(x);
+                SinglePass<E> first, last;
+                first.src = &src; first.pos = std::make_shared<std::size_t>(0); first.is_end = false;
+                arm();
+                if (n == "irs") v.insert(v.begin() + op.a[1], first, last);
+                else v.push_back(first, last);
                 return ok;
             }
             // arguments that alias the container itself (only live elements / live sub-ranges may be named)
@@ -471,7 +561,7 @@ struct Interp
             const std::string& n = op.name;
             std::size_t i = op.a[0];
             if ((n == "mv" || n == "ma") && oc[0] == 'D') { mf[i] = false; mf[op.a[1]] = true; }
-            else if ((n == "n" || n == "nf" || n == "nl" || n == "cp" || n == "de") && oc != "S") mf[i] = false;
+            else if ((n == "n" || n == "nf" || n == "nfl" || n == "nfa" || n == "nfi" || n == "nfv" || n == "nl" || n == "cp" || n == "de") && oc != "S") mf[i] = false;
             else if ((n == "as" || n == "la") && oc[0] == 'D') mf[i] = false;
             out += oc;
             auto ws = writes(op);
@@ -508,6 +598,7 @@ std::string run_case(const std::vector<std::string>& w)
         else if (w[0] == "M") { Interp<ElemM> in; r = in.run(w); }
         else if (w[0] == "T") { Interp<ElemT> in; r = in.run(w); }
         else if (w[0] == "U") { Interp<ElemU> in; r = in.run(w); }
+        else if (w[0] == "P") { Interp<Plain> in; r = in.run(w); }
         else return "BADCASE";
     }
     catch (...)
